@@ -175,6 +175,15 @@ func Findings() []Finding {
 
 // knownSig reports whether sig is listed as a known (unrepaired) finding of property id.
 func knownSig(id, sig string) bool {
+	// development aid only (never set by registered commands): treat these signatures as
+	// listed so that the search continues behind a defect that is being analysed
+	if dev := os.Getenv("VERIF_DEV_IGNORE"); dev != "" {
+		for _, s := range strings.Split(dev, ",") {
+			if s == sig {
+				return true
+			}
+		}
+	}
 	for _, f := range Findings() {
 		if f.Property == id && f.Status == "known" && f.Signature == sig {
 			return true
